@@ -572,6 +572,35 @@ func Rounding(p *load.Program, run *report.Run, pkgs []string, files map[string]
 						return true
 					}
 				}
+				// x + d - 1 written as a sum: one term that is not a constant, constants adding up to d-1
+				var total int64
+				vars := 0
+				var flat func(e ast.Expr, sign int64) bool
+				flat = func(e ast.Expr, sign int64) bool {
+					e = ast.Unparen(e)
+					if k, ok := c.constInt(e); ok {
+						total += sign * k
+						return true
+					}
+					if b, ok := e.(*ast.BinaryExpr); ok && (b.Op == token.ADD || b.Op == token.SUB) {
+						if !flat(b.X, sign) {
+							return false
+						}
+						if b.Op == token.SUB {
+							return flat(b.Y, -sign)
+						}
+						return flat(b.Y, sign)
+					}
+					if sign < 0 {
+						return false
+					}
+					vars++
+					return true
+				}
+				if flat(par.X, 1) && vars == 1 && total == d-1 && be.Op == token.QUO {
+					run.OK(rule, key, pos, "ceil idiom")
+					return true
+				}
 			}
 			fn := c.fd.Body
 			hasMod, guardedMod, remLoop := false, false, false
